@@ -21,6 +21,48 @@ CHECKS = {
         note="Trusts the cumulative-balance model; over-spent nodes are extended one level only (every longer extension contains the same uncovered disposal).",
         design="3/C02",
     ),
+    "C03": dict(
+        category="exploration",
+        technique="bounded-exhaustive enumeration of all sequences over the 19 (table, type) symbols on the real compute_tax, independent taxability table",
+        text="All sequences of up to 4 (thorough 5) transactions over every (table, transaction type) pair - 10 IN types, 6 OUT types, a SELL with fee, transfers with and without fee - after a covering purchase, one day apart and with every placement of one (two) same-instant steps, under fifo and hifo (thorough: all four): the taxable event set and the gain/loss set must contain exactly the rows an independent table says, once, in full, lot-less with zero cost for income, under the row's own type.",
+        note="The taxability table is written independently in rp2verif/props/c03.py. Negative STAKING acquisitions and transfer fees worth < 5e-14 fiat are outside the alphabet.",
+        design="3/C03",
+    ),
+    "C04": dict(
+        category="exploration",
+        technique="exhaustive product of value palettes over history shapes on the real compute_tax, exact rational oracle",
+        text="Full product of 4 (thorough 8) amounts from 1e-11 to 1e9 and 4 (7) prices from 1e-8 to 1e7 with fee variants, exchange-supplied fiat columns (absent / consistent / deliberately different) and disposal classes (SELL, FEE-typed, transfer fee) over six history shapes; proceeds, cost basis and gain of every fraction are recomputed from the constructor arguments in exact rationals (1e-15 relative) and parts must re-assemble to the whole.",
+        note="A grid, not all decimals. Float contamination is visible only through the FloatOperation trap raising or an error above 1e-15 relative.",
+        design="3/C04",
+    ),
+    "C05": dict(
+        category="exploration",
+        technique="exhaustive boundary grid (instants x deltas x UTC offsets x country configurations) on the real compute_tax, epoch-second oracle",
+        text="6 acquisition instants (leap day, year end) x 9 deltas around the threshold (P-1s, P, P+1s, +-12h, +-1d, 0, 2P) x 16 UTC-offset pairs x 10 country configurations (us, es, jp, ie, generic with 6 LONG_TERM_CAPITAL_GAINS values), plus a sale straddling the threshold over two lots and income events; the LONG/SHORT flag of every fraction and the split of the yearly summary are compared with floor(elapsed seconds / 86400) >= P.",
+        note="Only the listed thresholds and instants; timedelta arithmetic of the oracle is on epoch seconds.",
+        design="3/C05",
+    ),
+    "C06": dict(
+        category="exploration",
+        technique="bounded-exhaustive prefix tree of multi-year histories x every window of interest on the real pipeline, regrouping oracle in exact rationals",
+        text="Every multi-year history (steps +1d/+200d/+365d, 8 symbols) up to depth 3 under fifo/lifo/hifo and depth 4 under hifo (thorough: depth 4 x 4 methods, depth 5 x 2) is run once unfiltered and once per to-date / from-date of interest (on and the day before every transaction, year ends, year starts, mid-year); the yearly list must have exactly the keys of the detail fractions, once, with equal sums of all four figures, and grand totals equal to the detail table.",
+        note="Single time zone; the long/short flag of a fraction is taken from RP2 (C05 decides it).",
+        design="3/C06",
+    ),
+    "C07": dict(
+        category="exploration",
+        technique="bounded-exhaustive 3-account prefix tree on the real pipeline x to-dates x -n, reference account replay + lot reconciliation",
+        text="Every history up to depth 3 (thorough 4) over 30 symbols on 3 accounts (2 exchanges x 2 holders; buys, income, sales, transfers with/without fee between all ordered pairs and to self) x fifo/hifo x -n off/on x every to-date: each account's acquired / sent / received / final equals the reference replay, every touched account appears once, and the sum of final balances equals acquired lots minus consumed fractions.",
+        note="Per-holder totals exist only in the report and are read back in C13.",
+        design="3/C07",
+    ),
+    "C08": dict(
+        category="model_checking",
+        technique="explicit-state exploration of the 3-account history tree (transient overdrafts, intraday steps, epsilon deviations) on the real pipeline against a reference replay with an explicit either-zone",
+        text="Every history up to depth 3 (thorough 4) over the 30-symbol 3-account alphabet with steps same-instant / +1h / +1d, including overdrawing, transiently overdrawing and globally over-spent histories, plus amount+epsilon (4e-11 .. 1e-9) at every outgoing position, x -n off/on: must be rejected when every ordering of equal-instant groups dips below -1e-10, must be accepted when no ordering goes negative, the error names an overdrawn account, and with -n the negative balance is reported.",
+        note="Order inside an instant and dips between -1e-10 and 0 are left open by the property and are not judged. 'No report is produced' is decided end-to-end in C12.",
+        design="3/C08",
+    ),
 }
 
 NOT_YET = {
